@@ -3,9 +3,15 @@ C08 - Signed transactions execute once, in nonce order, via a bounded pending po
 
 `addRawTx` is the model of `add_raw_tx_to_block`. The EVM's part of the contract - "a run that revm accepts
 bumps the sender's nonce by exactly one" - is a hypothesis where needed; everything else is bookkeeping.
+
+"`txpool_content` shows exactly the waiting set": the model checks, on the recorded events, that every entry the
+drain loop visited has left the pending table (`drainCheck`, reject `drain-kept`) and that a finalise leaves no entry
+parked 10 or more blocks ago (`poolFreshAt`, reject `expired-kept`): `C08.drained_entries_leave_pool`,
+`C08.finalise_leaves_no_expired`, `C08.mine_leaves_no_expired`.
 -/
 import Brc20.Model.Node
 import Brc20.Proofs.Node
+import Brc20.Proofs.NodeRun
 import Brc20.Gen.Constants
 
 namespace Brc20
@@ -84,8 +90,10 @@ theorem C08.appended_count (n : Node) (ts : Nat) (h : String) (txid : String) (s
     (hok : (n.addRawTx ts h n.lbi.waiting txid (.ok sender (n.accountNonce sender)) evs).2 = .ok) :
     (n.addRawTx ts h n.lbi.waiting txid (.ok sender (n.accountNonce sender)) evs).1.lbi.waiting =
       n.lbi.waiting + 1 + (drainPlan n sender n.nextHeight FUTURE_NONCES (n.accountNonce sender + 1)).1 := by
-  simp only [addRawTx, ne_eq, not_true_eq_false, if_false] at hok ⊢
-  obtain ⟨_, _, hk, _, _, n', _, hn⟩ := addTxs_ok hok
+  rw [addRawTx_exec] at hok ⊢
+  obtain ⟨hok', he, _⟩ := drainCheck_ok hok
+  rw [he]
+  obtain ⟨_, _, hk, _, _, n', _, hn⟩ := addTxs_ok hok'
   rw [hn]
   simp only [bumpLbi_waiting, l0_waiting]
   rw [hk _ rfl]
@@ -105,6 +113,200 @@ theorem C08.drain_bounds (n : Node) (sender : String) (bn fuel nonce : Nat) :
     · have := ih (nonce + 1)
       simp only []
       split <;> split <;> omega
+
+/-- What the drain visits: the entries at the consecutive nonces `nonce, nonce + 1, ..` that have a row in the
+pending table, up to the first gap (or 10 entries). -/
+theorem C08.drain_visits_consecutive (n : Node) (sender : String) (bn fuel nonce : Nat) :
+    (∀ k, k < (drainPlan n sender bn fuel nonce).2 →
+      (n.t .pending).latest (sender ++ hexN 16 (nonce + k)) ≠ none) ∧
+    ((drainPlan n sender bn fuel nonce).2 < fuel →
+      (n.t .pending).latest (sender ++ hexN 16 (nonce + (drainPlan n sender bn fuel nonce).2)) = none) := by
+  induction fuel generalizing nonce with
+  | zero => simp [drainPlan]
+  | succ fuel ih =>
+    unfold drainPlan
+    cases hl : (n.t .pending).latest (sender ++ hexN 16 nonce) with
+    | none =>
+      refine ⟨fun k hk => absurd hk (Nat.not_lt_zero k), fun _ => ?_⟩
+      simpa using hl
+    | some v =>
+      obtain ⟨ih1, ih2⟩ := ih (nonce + 1)
+      refine ⟨?_, ?_⟩
+      · intro k hk
+        cases k with
+        | zero => rw [Nat.add_zero, hl]; simp
+        | succ k =>
+          have := ih1 k (by simpa using hk)
+          rwa [Nat.add_assoc, Nat.add_comm 1 k] at this
+      · intro hlt
+        have := ih2 (by simpa using hlt)
+        simp only []
+        rwa [Nat.add_assoc, Nat.add_comm 1] at this
+
+/-- **Drained entries leave the pool.** When a signed transaction at the account nonce is accepted, every waiting
+successor the drain loop visited - executed, or skipped because it was parked 10 or more blocks ago - has no row in
+the pending table (`account_and_nonce_to_tx_hash`) any more: `txpool_content` no longer shows it.
+(The engine calls `remove_pending_tx` for each visited entry; the companion row in `pending_tx_hash_to_tx_id` is
+not removed by the engine and nothing is claimed about it.) -/
+theorem C08.drained_entries_leave_pool (n : Node) (ts : Nat) (h : String) (idx : Nat) (txid : String) (sender : String)
+    (evs : List Ev)
+    (hok : (n.addRawTx ts h idx txid (.ok sender (n.accountNonce sender)) evs).2 = .ok) :
+    ∀ k, k < (drainPlan n sender n.nextHeight FUTURE_NONCES (n.accountNonce sender + 1)).2 →
+      ((n.addRawTx ts h idx txid (.ok sender (n.accountNonce sender)) evs).1.t .pending).latest
+        (sender ++ hexN 16 (n.accountNonce sender + 1 + k)) = none := by
+  rw [addRawTx_exec] at hok ⊢
+  obtain ⟨_, he, hg⟩ := drainCheck_ok hok
+  rw [he]
+  exact drainGone_spec hg
+
+/-- A model answer `ok` for a call whose recorded events keep a drained entry is impossible: such a call is
+rejected as not fitting the engine (`drain-kept`), with the node left alone. -/
+theorem C08.kept_drained_entry_rejected (n : Node) (ts : Nat) (h : String) (idx : Nat) (txid : String) (sender : String)
+    (evs : List Ev) (k : Nat)
+    (hk : k < (drainPlan n sender n.nextHeight FUTURE_NONCES (n.accountNonce sender + 1)).2)
+    (hadd : (n.addTxs ts h idx (some txid) evs
+      (some (1 + (drainPlan n sender n.nextHeight FUTURE_NONCES (n.accountNonce sender + 1)).1))).2 = .ok)
+    (hkept : ((n.addTxs ts h idx (some txid) evs
+      (some (1 + (drainPlan n sender n.nextHeight FUTURE_NONCES (n.accountNonce sender + 1)).1))).1.t .pending).latest
+        (sender ++ hexN 16 (n.accountNonce sender + 1 + k)) ≠ none) :
+    n.addRawTx ts h idx txid (.ok sender (n.accountNonce sender)) evs = (n, .reject "drain-kept") := by
+  rw [addRawTx_exec]
+  rcases drainCheck_cases n sender (n.accountNonce sender + 1)
+    (drainPlan n sender n.nextHeight FUTURE_NONCES (n.accountNonce sender + 1)).2
+    (n.addTxs ts h idx (some txid) evs
+      (some (1 + (drainPlan n sender n.nextHeight FUTURE_NONCES (n.accountNonce sender + 1)).1))) with e | ⟨_, e⟩
+  · exfalso
+    have hok : (drainCheck n sender (n.accountNonce sender + 1)
+        (drainPlan n sender n.nextHeight FUTURE_NONCES (n.accountNonce sender + 1)).2
+        (n.addTxs ts h idx (some txid) evs
+          (some (1 + (drainPlan n sender n.nextHeight FUTURE_NONCES (n.accountNonce sender + 1)).1)))).2 = .ok := by
+      rw [e]; exact hadd
+    exact hkept (drainGone_spec (drainCheck_ok hok).2.2 k hk)
+  · exact e
+
+/-- **A finalise leaves no expired entry in the pool.** After an accepted finalise of block `bn` (the new latest
+height), every row of the pending table carries the number `pb` of the block it was parked in, and
+`bn < pb + 10`: it was parked fewer than 10 blocks ago. (`clear_txpool(bn)` removes every entry without a block
+number or with `pb + 10 <= bn`.) -/
+theorem C08.finalise_leaves_no_expired (n : Node) (ts : Nat) (h : String) (count : Nat) (evs : List Ev)
+    (hok : (n.finaliseOne ts h count evs).2 = .ok) :
+    (n.finaliseOne ts h count evs).1.latestHeight = n.nextHeight ∧
+    ∀ k v, ((n.finaliseOne ts h count evs).1.t .pending).latest k = some v →
+      ∃ pb, parkedBlock v = some pb ∧ (n.finaliseOne ts h count evs).1.latestHeight < pb + 10 := by
+  obtain ⟨n1, _, _, hn⟩ := finaliseOne_ok_node hok
+  have hlh : (n.finaliseOne ts h count evs).1.latestHeight = n.nextHeight := by rw [hn]; rfl
+  obtain ⟨_, n', _, _, _, _, _, ht, _, _, hf⟩ := finaliseOne_ok hok
+  refine ⟨hlh, ?_⟩
+  intro k v hl
+  rw [ht] at hl
+  rw [hlh]
+  exact poolFreshAt_spec hf k v hl
+
+/-- the same for `mine`: after an accepted `mine` of at least one block, no pool entry is 10 or more blocks old -/
+theorem C08.mine_leaves_no_expired (n : Node) (count ts : Nat) (evs : List Ev) (hc : 0 < count)
+    (hok : (n.mine count ts evs).2 = .ok) :
+    ∀ k v, ((n.mine count ts evs).1.t .pending).latest k = some v →
+      ∃ pb, parkedBlock v = some pb ∧ (n.mine count ts evs).1.latestHeight < pb + 10 := by
+  have loop : ∀ (c : Nat) (m : Node),
+      (c = 0 → ∀ k v, (m.t .pending).latest k = some v → ∃ pb, parkedBlock v = some pb ∧ m.latestHeight < pb + 10) →
+      (mineLoop m ts evs c).2 = .ok →
+      ∀ k v, ((mineLoop m ts evs c).1.t .pending).latest k = some v →
+        ∃ pb, parkedBlock v = some pb ∧ (mineLoop m ts evs c).1.latestHeight < pb + 10 := by
+    intro c
+    induction c with
+    | zero => intro m hm _; exact hm rfl
+    | succ c ih =>
+      intro m _ hok
+      simp only [mineLoop] at hok ⊢
+      cases hr : finaliseOne m ts zeroHash 0 (evs.filter (fun e => stampOf e == some m.nextHeight)) with
+      | mk m' cl =>
+        rw [hr] at hok
+        cases cl with
+        | ok =>
+          simp only [] at hok ⊢
+          have hfo : (finaliseOne m ts zeroHash 0 (evs.filter (fun e => stampOf e == some m.nextHeight))).2 = .ok := by
+            rw [hr]
+          have := (C08.finalise_leaves_no_expired m ts zeroHash 0 _ hfo).2
+          rw [hr] at this
+          exact ih m' (fun _ => this) hok
+        | err e => cases hok
+        | panic => cases hok
+        | reject w => cases hok
+  unfold mine at hok ⊢
+  split at hok
+  · cases hok
+  · rename_i hw
+    rw [if_neg hw]
+    split at hok
+    · cases hok
+    · rename_i hcl
+      rw [if_neg hcl]
+      exact loop count n (fun h0 => absurd h0 (by omega)) hok
+
+/-- **Between finalises the model does not constrain what a parked row contains.** A parked submission may record
+any pending-pool writes (`poolOnly`); the block number inside the row is the implementation's. So "every row of the
+pending table was parked fewer than 10 blocks ago" is *not* an invariant of every reachable node at a block boundary:
+here a reachable node, nothing under construction, whose pending table holds a row without a block number. It holds
+right after every accepted finalise / mine (above), and the next finalise removes such a row or is rejected. -/
+example : Reach ((({} : Node).addRawTx 150 zeroHash 0 "cd" (.ok "aa" 1)
+      [.s "account_and_nonce_to_tx_hash" 0 "aa0000000000000001" (some "77")]).1) ∧
+    (({} : Node).addRawTx 150 zeroHash 0 "cd" (.ok "aa" 1)
+      [.s "account_and_nonce_to_tx_hash" 0 "aa0000000000000001" (some "77")]).1.lbi.waiting = 0 ∧
+    ((({} : Node).addRawTx 150 zeroHash 0 "cd" (.ok "aa" 1)
+      [.s "account_and_nonce_to_tx_hash" 0 "aa0000000000000001" (some "77")]).1.t .pending).latest
+        "aa0000000000000001" = some "77" ∧
+    parkedBlock "77" = none := by
+  refine ⟨?_, by decide, by decide, by decide⟩
+  exact Reach.step (.addRawTx 150 zeroHash 0 "cd" (.ok "aa" 1)
+    [.s "account_and_nonce_to_tx_hash" 0 "aa0000000000000001" (some "77")]) Reach.init
+    (by
+      have : (({} : Node).addRawTx 150 zeroHash 0 "cd" (.ok "aa" 1)
+        [.s "account_and_nonce_to_tx_hash" 0 "aa0000000000000001" (some "77")]).2 = .ok := by decide
+      show (({} : Node).addRawTx 150 zeroHash 0 "cd" (.ok "aa" 1)
+        [.s "account_and_nonce_to_tx_hash" 0 "aa0000000000000001" (some "77")]).2.accepted
+      rw [this]; trivial)
+
+namespace C08.Example
+
+-- the parked row is a 162-character string that `decide` has to walk through
+set_option maxRecDepth 8192
+
+/-- a parked transaction row as far as the model reads it: hash, nonce 1, block hash, `Some(0)`: parked in block 0 -/
+def row : String :=
+  "0000000000000000000000000000000000000000000000000000000000000077" ++ "0000000000000001" ++
+  "0000000000000000000000000000000000000000000000000000000000000001" ++ "01" ++ "0000000000000000"
+
+/-- sender `aa` (account nonce 0) with nonce 1 parked in block 0 -/
+def parked : Node :=
+  (({} : Node).addRawTx 100 zeroHash 0 "cd" (.ok "aa" 1)
+    [.s "pending_tx_hash_to_tx_id" 0 "77" (some "cd"), .s "account_and_nonce_to_tx_hash" 0 "aa0000000000000001" (some row)]).1
+
+def env : List (String × String) :=
+  [("number", "0"), ("ts", "100"), ("prevrandao", generatedHash 0), ("basefee", "0"), ("gasprice", "0"), ("value", "0"),
+   ("coinbase", "0000000000000000000000000000000000000000"), ("txid", "ab")]
+
+/-- nonce 0 arrives: two runs (the submitted transaction and the drained successor), the account row after them -/
+def evRuns : List Ev :=
+  [ .x "tx" env true true 21000 0, .x "tx" env true true 21000 0,
+    .s "account" 0 "aa" (some "a2") ]
+
+/-- Non-vacuity: the drain visits and executes one entry. With the recorded `remove_pending_tx` the call is accepted,
+two transactions are appended and the entry has left the pool; without it (an engine that forgets the removal) the
+same call is rejected as `drain-kept` and the node is left alone. -/
+example : drainPlan parked "aa" parked.nextHeight FUTURE_NONCES (parked.accountNonce "aa" + 1) = (1, 1) ∧
+    (parked.t .pending).latest "aa0000000000000001" = some row ∧
+    (parked.addRawTx 100 zeroHash 0 "ab" (.ok "aa" 0)
+      (evRuns ++ [.s "account_and_nonce_to_tx_hash" 0 "aa0000000000000001" none])).2 = .ok ∧
+    (parked.addRawTx 100 zeroHash 0 "ab" (.ok "aa" 0)
+      (evRuns ++ [.s "account_and_nonce_to_tx_hash" 0 "aa0000000000000001" none])).1.lbi.waiting = 2 ∧
+    ((parked.addRawTx 100 zeroHash 0 "ab" (.ok "aa" 0)
+      (evRuns ++ [.s "account_and_nonce_to_tx_hash" 0 "aa0000000000000001" none])).1.t .pending).latest
+        "aa0000000000000001" = none ∧
+    parked.addRawTx 100 zeroHash 0 "ab" (.ok "aa" 0) evRuns = (parked, .reject "drain-kept") := by
+  refine ⟨by decide, by decide, by decide, by decide, by decide, ?_⟩
+  exact C08.kept_drained_entry_rejected parked 100 zeroHash 0 "ab" "aa" evRuns 0 (by decide) (by decide) (by decide)
+
+end C08.Example
 
 /-- An entry parked in block `pb` is live for the drain of block `bn` iff `bn < pb + 10` (window edge exact). -/
 theorem C08.window_edge (pb bn : Nat) : decide (FUTURE_BLOCKS + pb > bn) = true ↔ bn < pb + 10 := by
